@@ -63,6 +63,14 @@ def run(ctx: Ctx) -> None:
         ctx.count(key, bucket=f"single/{name}")
         x0 = torch.randn(shape, dtype=dt)
         g = torch.randn(shape, dtype=dt)
+        if ci % 3 == 0:
+            # the same layer in lower precision first: nothing may leak into the float64 call (e.g. cached scale tensors)
+            for wdt in (torch.bfloat16, torch.float32):
+                try:
+                    xw = x0.to(wdt).requires_grad_(True)
+                    U.residual_apply(torch.tanh, xw, tau).sum().backward()
+                except Exception:
+                    pass
         ok = False
         with ctx.guard("C06:call", key):
             # split / f / add, with a hook on the branch output
@@ -114,6 +122,37 @@ def run(ctx: Ctx) -> None:
                           key, {"add": [wr, ws], "split": [br, bs]})
         wreqs.append({"k": "scale", "op": "residual", "tau": f2b(tau)})
         wcases.append((key, wr, ws, br, bs))
+
+    # ---- the layer input does not require grad, the branch has trainable parameters: the gradient arriving inside the
+    #      branch (and hence the branch's weight gradient) must still be the unattenuated upstream gradient
+    for ci in range(20 if quick else 400):
+        tau = math.exp(rng.uniform(math.log(1e-2), math.log(1e2)))
+        n = rng.choice([3, 5])
+        key = {"frozen_input": True, "tau": tau, "n": n, "via": "apply" if ci % 2 else "split-add"}
+        ctx.count(key, bucket="frozen-input")
+        W = torch.randn(n, n, dtype=dt, requires_grad=True)
+        x = torch.randn(4, n, dtype=dt)           # requires_grad = False
+        g = torch.randn(4, n, dtype=dt)
+        with ctx.guard("C06:frozen-call", key):
+            seen = {}
+
+            def f(z):
+                r = torch.tanh(z @ W)
+                r.register_hook(lambda gr: seen.__setitem__("g", gr.clone()))
+                return r
+
+            if ci % 2:
+                y = U.residual_apply(f, x, tau)
+            else:
+                res, skip = U.residual_split(x, tau)
+                y = U.residual_add(f(res), skip, tau)
+            (gW,) = torch.autograd.grad(y, W, g)
+            Wr = W.detach().clone().requires_grad_(True)
+            (gWr,) = torch.autograd.grad(torch.tanh(x @ Wr), Wr, g)
+            if "g" not in seen or not torch.equal(seen["g"], g):
+                ctx.violation("C06:branch-grad", "upstream gradient arrives attenuated inside the branch (input without grad)", key)
+            elif not torch.allclose(gW, gWr, rtol=1e-11, atol=1e-13):
+                ctx.violation("C06:branch-weight-grad", "branch weight gradient is not the unattenuated one", key)
 
     # ---- stacks: sequential and nested, 1..8 layers
     n_st = 60 if quick else 1500
